@@ -8,6 +8,7 @@ From Coq Require Import NArith PeanoNat List Bool Lia.
 From CB Require Import Trie.Radix.
 From CB Require Import Trie.RadixProofs.
 From CB Require Import Trie.Locks.
+From CB Require Import Trie.LocksProofs.
 From CB Require Import Trie.Arena.
 From CB Require Import Trie.ArenaProofs.
 Import ListNotations.
@@ -885,3 +886,466 @@ Proof.
   intros H. unfold ar_delete_prefix. destruct (cur_root a) as [r|] eqn:Er; [|apply Ok_refl; exact H].
   apply delete_prefix_loop_ok; [exact H | apply (AI_root a H r Er) | |]; intros p u E; discriminate.
 Qed.
+
+(** * The arena machine *)
+
+Definition SInv (s : astate) : Prop :=
+  AInv (as_arena s)
+  /\ Forall (fun e => cpe (as_arena s) <= e) (cur_handles s)
+  /\ a_gens (as_arena s) <> []
+  /\ length (as_handles s) = length (a_gens (as_arena s)).
+
+Definition gen_op (o : op) : bool :=
+  match o with ONewGen | ONormalize _ => true | _ => false end.
+
+Lemma Below_gens_ne a a' : Below a a' -> a_gens a <> [] -> a_gens a' <> [].
+Proof. intros B Hne E. pose proof (B_glen a a' B) as L. rewrite E in L. destruct (a_gens a); [congruence | discriminate]. Qed.
+
+Lemma SInv_with_arena s a' :
+  SInv s -> Ok (as_arena s) a' -> SInv (with_arena s a').
+Proof.
+  intros (H & Hh & Hne & Hl) O. destruct (Ok_cp _ _ O) as (_ & _ & F3 & _).
+  unfold SInv, with_arena, cur_handles. cbn [as_arena as_handles].
+  split; [apply O|]. split; [rewrite F3; exact Hh|]. split; [eapply Below_gens_ne; [apply O | exact Hne]|].
+  rewrite (B_glen _ _ (proj1 (proj2 O))). exact Hl.
+Qed.
+
+Lemma SInv_push_handle s a' e :
+  SInv s -> Ok (as_arena s) a' -> cpe (as_arena s) <= e -> SInv (push_handle s a' e).
+Proof.
+  intros (H & Hh & Hne & Hl) O He. destruct (Ok_cp _ _ O) as (_ & _ & F3 & _).
+  unfold SInv, push_handle, cur_handles in *. destruct (as_handles s) as [|h r] eqn:Eh; cbn [as_arena as_handles] in *.
+  - exfalso. destruct (a_gens (as_arena s)); [congruence | discriminate].
+  - split; [apply O|]. split; [|split].
+    + rewrite F3. apply Forall_app. split; [exact Hh | repeat constructor; exact He].
+    + eapply Below_gens_ne; [apply O | exact Hne].
+    + rewrite (B_glen _ _ (proj1 (proj2 O))). exact Hl.
+Qed.
+
+Lemma arena_push_handle s a e : as_arena (push_handle s a e) = a.
+Proof. unfold push_handle. destruct (as_handles s); reflexivity. Qed.
+
+Lemma cur_handles_in s h e : SInv s -> nth_error (cur_handles s) h = Some e -> cpe (as_arena s) <= e.
+Proof.
+  intros (_ & Hh & _) E. rewrite Forall_forall in Hh. apply Hh. eapply nth_error_In. exact E.
+Qed.
+
+(** Every operation other than [new_generation] / [normalize] leaves the vectors below the
+    checkpoint of the current generation unchanged, and preserves the invariant. *)
+Theorem as_step_cow o s :
+  SInv s -> gen_op o = false ->
+  Ok (as_arena s) (as_arena (fst (as_step o s))) /\ SInv (fst (as_step o s))
+  /\ tl (as_handles (fst (as_step o s))) = tl (as_handles s).
+Proof.
+  intros HS Hg. pose proof HS as (H & Hh & Hne & Hl).
+  assert (Same : Ok (as_arena s) (as_arena s) /\ SInv s /\ tl (as_handles s) = tl (as_handles s))
+    by (split; [apply Ok_refl; exact H | split; [exact HS | reflexivity]]).
+  assert (TlP : forall a' e, tl (as_handles (push_handle s a' e)) = tl (as_handles s)).
+  { intros a' e. unfold push_handle. destruct (as_handles s) eqn:Eh; [|reflexivity].
+    exfalso. try rewrite Eh in Hl. destruct (a_gens (as_arena s)); [congruence | discriminate]. }
+  destruct o; try discriminate Hg; cbn [as_step]; try exact Same.
+  - (* insert *)
+    destruct (ar_insert_ok (as_arena s) k v H) as (O & He).
+    destruct (ar_insert (as_arena s) k v) as [[a1 e] existed]. cbn [fst snd] in *.
+    rewrite arena_push_handle. split; [exact O|]. split; [apply SInv_push_handle; assumption | apply TlP].
+  - (* get *)
+    destruct (lookup_key_ok (as_arena s) k H) as (O & He).
+    destruct (a_lookup_key (as_arena s) k) as [a1 [e|]]; cbn [fst snd] in *.
+    + rewrite arena_push_handle. split; [exact O|]. split; [apply SInv_push_handle; [exact HS | exact O | apply He; reflexivity] | apply TlP].
+    + split; [exact O|]. split; [apply SInv_with_arena; assumption | reflexivity].
+  - (* read *)
+    destruct (nth_error (cur_handles s) h); exact Same.
+  - (* set *)
+    destruct (nth_error (cur_handles s) h) as [e|] eqn:E; [|exact Same].
+    pose proof (a_set_ok (as_arena s) e v H (cur_handles_in s h e HS E)) as O.
+    destruct (a_set (as_arena s) e v) as [a1 b]. cbn [fst] in *.
+    split; [exact O|]. split; [apply SInv_with_arena; assumption | reflexivity].
+  - (* get_mut *)
+    destruct (nth_error (cur_handles s) h) as [e|] eqn:E; [|exact Same].
+    pose proof (a_mut_ok (as_arena s) e v H (cur_handles_in s h e HS E)) as O.
+    destruct (a_mut (as_arena s) e v) as [a1 b]. cbn [fst] in *.
+    split; [exact O|]. split; [apply SInv_with_arena; assumption | reflexivity].
+  - (* delete *)
+    pose proof (ar_delete_ok (as_arena s) k H) as O.
+    destruct (ar_delete (as_arena s) k) as [a1 b]. cbn [fst] in *.
+    split; [exact O|]. split; [apply SInv_with_arena; assumption | reflexivity].
+  - (* delete_prefix *)
+    pose proof (ar_delete_prefix_ok (as_arena s) k H) as O.
+    destruct (ar_delete_prefix (as_arena s) k) as [a1 b]. cbn [fst] in *.
+    split; [exact O|]. split; [apply SInv_with_arena; assumption | reflexivity].
+Qed.
+
+(** * [new_generation] establishes the invariant for the new generation *)
+
+Definition tag_ok (a : arena) : bool :=
+  match cur_root a with
+  | Some r => Nat.eqb (an_gen (node_at a r)) (gnum a)
+  | None => true
+  end.
+
+Lemma cur_checkpoint_app gs g e v n :
+  cur_checkpoint (mkA (gs ++ [g]) e v n) = (ag_nodes g, ag_values g, ag_entries g).
+Proof. unfold cur_checkpoint. cbn [a_gens]. rewrite rev_app_distr. reflexivity. Qed.
+
+Lemma cur_root_app gs g e v n : cur_root (mkA (gs ++ [g]) e v n) = ag_root g.
+Proof. unfold cur_root. cbn [a_gens]. rewrite rev_app_distr. reflexivity. Qed.
+
+Theorem new_generation_inv a :
+  AInv a -> a_gens a <> [] -> tag_ok a = true -> AInv (a_new_generation a).
+Proof.
+  intros H Hne Htag. pose proof (AI_len a H) as (L1 & L2 & L3).
+  assert (Hg : forall gs g e v n, gs = a_gens a -> gnum (mkA (gs ++ [g]) e v n) = S (gnum a)).
+  { intros gs g e v n ->. unfold gnum. cbn [a_gens]. rewrite app_length. cbn.
+    destruct (a_gens a); [congruence | cbn; lia]. }
+  unfold a_new_generation, tag_ok in *. destruct (cur_root a) as [r|] eqn:Er.
+  - apply Nat.eqb_eq in Htag.
+    unfold migrate. destruct (an_val (node_at a r)) as [idx|] eqn:Ev.
+    + cbn [push_node push_entry a_gens a_entries a_values a_nodes].
+      set (n' := mkAN (S (an_gen (node_at a r))) (Some (length (a_entries a))) (an_path (node_at a r))
+                      (an_cgen (node_at a r)) (an_ch (node_at a r))).
+      set (ent := match nth idx (a_entries a) EDeleted with EMutable i => EReadOnly i | x => x end).
+      apply AInv_intro; unfold cpn, cpv, cpe; rewrite ?cur_checkpoint_app, ?(Hg _ _ _ _ _ eq_refl);
+        cbn [fst snd ag_nodes ag_values ag_entries a_nodes a_values a_entries].
+      * rewrite !app_length. cbn. lia.
+      * intros i Hi. unfold node_at. cbn [a_nodes]. rewrite app_nth1 by exact Hi.
+        pose proof (AI_le a H i) as (X & Y). unfold node_at in *. lia.
+      * intros i Hi. unfold node_at. cbn [a_nodes]. rewrite nth_app_single.
+        destruct (Nat.eqb_spec i (length (a_nodes a))) as [->|Hn].
+        -- unfold NodeOK, n'. cbn [an_gen an_cgen an_ch an_val].
+           unfold cpn, cpv, cpe, gnum. rewrite ?cur_checkpoint_app. cbn [fst snd ag_nodes ag_values ag_entries a_gens].
+           rewrite app_length. cbn [length]. pose proof (AI_le a H r) as (X & Y). unfold gnum in *.
+           destruct (a_gens a) as [|g0 gs0]; [congruence|]. cbn [length] in *.
+           split; [intros _; lia|]. split; [intros E; lia|]. split; [intros e E; inversion E; lia | lia].
+        -- rewrite nth_overflow by lia. apply NodeOK_default.
+      * intros e v Hge Hnth. rewrite nth_app_single in Hnth.
+        destruct (Nat.eqb_spec e (length (a_entries a))) as [->|Hn].
+        -- unfold ent in Hnth. destruct (nth idx (a_entries a) EDeleted); discriminate.
+        -- destruct (Nat.lt_ge_cases e (length (a_entries a))); [lia|]. rewrite nth_overflow in Hnth by lia. discriminate.
+      * intros r'. rewrite cur_root_app. cbn. intros E. inversion E. lia.
+    + cbn [push_node a_gens a_entries a_values a_nodes].
+      set (n' := mkAN (S (an_gen (node_at a r))) None (an_path (node_at a r)) (an_cgen (node_at a r)) (an_ch (node_at a r))).
+      apply AInv_intro; unfold cpn, cpv, cpe; rewrite ?cur_checkpoint_app, ?(Hg _ _ _ _ _ eq_refl);
+        cbn [fst snd ag_nodes ag_values ag_entries a_nodes a_values a_entries].
+      * rewrite !app_length. cbn. lia.
+      * intros i Hi. unfold node_at. cbn [a_nodes]. rewrite app_nth1 by exact Hi.
+        pose proof (AI_le a H i) as (X & Y). unfold node_at in *. lia.
+      * intros i Hi. unfold node_at. cbn [a_nodes]. rewrite nth_app_single.
+        destruct (Nat.eqb_spec i (length (a_nodes a))) as [->|Hn].
+        -- unfold NodeOK, n'. cbn [an_gen an_cgen an_ch an_val].
+           unfold cpn, cpv, cpe, gnum. rewrite ?cur_checkpoint_app. cbn [fst snd ag_nodes ag_values ag_entries a_gens].
+           rewrite app_length. cbn [length]. pose proof (AI_le a H r) as (X & Y). unfold gnum in *.
+           destruct (a_gens a) as [|g0 gs0]; [congruence|]. cbn [length] in *.
+           split; [intros _; lia|]. split; [intros E; lia|]. split; [discriminate | lia].
+        -- rewrite nth_overflow by lia. apply NodeOK_default.
+      * intros e v Hge Hnth. destruct (Nat.lt_ge_cases e (length (a_entries a))); [lia|].
+        rewrite nth_overflow in Hnth by lia. discriminate.
+      * intros r'. rewrite cur_root_app. cbn. intros E. inversion E. lia.
+  - assert (E : forall X : arena, match a_gens a with [] => a | _ :: _ => X end = X)
+      by (intros X; destruct (a_gens a); [congruence | reflexivity]).
+    rewrite E.
+    apply AInv_intro; unfold cpn, cpv, cpe; rewrite ?cur_checkpoint_app, ?(Hg _ _ _ _ _ eq_refl);
+      cbn [fst snd ag_nodes ag_values ag_entries a_nodes a_values a_entries].
+    * lia.
+    * intros i Hi. change (node_at (mkA _ (a_entries a) (a_values a) (a_nodes a)) i) with (node_at a i).
+      pose proof (AI_le a H i). lia.
+    * intros i Hi. change (node_at (mkA _ (a_entries a) (a_values a) (a_nodes a)) i) with (node_at a i).
+      unfold node_at. rewrite nth_overflow by lia. apply NodeOK_default.
+    * intros e v Hge Hnth. rewrite nth_overflow in Hnth by lia. discriminate.
+    * intros r'. rewrite cur_root_app. cbn. discriminate.
+Qed.
+
+(** * Histories: saved generations *)
+
+Definition cp_of (g : agen) : nat * nat * nat := (ag_nodes g, ag_values g, ag_entries g).
+Definition lens (a : arena) : nat * nat * nat := (length (a_nodes a), length (a_values a), length (a_entries a)).
+
+(** [c] is [b] plus exactly one newer generation whose checkpoint is the size of [b], and
+    everything of [b] is still there. *)
+Record Ext1 (b c : astate) : Prop := {
+  E_gens : exists g, a_gens (as_arena c) = a_gens (as_arena b) ++ [g] /\ cp_of g = lens (as_arena b);
+  E_nodes : firstn (length (a_nodes (as_arena b))) (a_nodes (as_arena c)) = a_nodes (as_arena b);
+  E_values : firstn (length (a_values (as_arena b))) (a_values (as_arena c)) = a_values (as_arena b);
+  E_entries : firstn (length (a_entries (as_arena b))) (a_entries (as_arena c)) = a_entries (as_arena b);
+  E_handles : tl (as_handles c) = as_handles b
+}.
+
+Fixpoint Hist (c : astate) (saved : list astate) : Prop :=
+  match saved with
+  | [] => length (a_gens (as_arena c)) = 1
+  | b :: rest => Ext1 b c /\ SInv b /\ Hist b rest
+  end.
+
+Lemma cur_checkpoint_last gs g e v n : cur_checkpoint (mkA (gs ++ [g]) e v n) = cp_of g.
+Proof. apply cur_checkpoint_app. Qed.
+
+Lemma checkpoint_of_gens a gs g : a_gens a = gs ++ [g] -> cur_checkpoint a = cp_of g.
+Proof. intros E. unfold cur_checkpoint. rewrite E, rev_app_distr. reflexivity. Qed.
+
+Lemma Ext1_below b c c' :
+  Ext1 b c -> Below (as_arena c) (as_arena c') -> tl (as_handles c') = tl (as_handles c) -> Ext1 b c'.
+Proof.
+  intros [(g & Eg & Ecp) En Ev Ee Eh] B Htl.
+  pose proof (checkpoint_of_gens _ _ _ Eg) as Cc.
+  assert (Cn : cpn (as_arena c) = length (a_nodes (as_arena b))) by (unfold cpn; rewrite Cc, Ecp; reflexivity).
+  assert (Cv : cpv (as_arena c) = length (a_values (as_arena b))) by (unfold cpv; rewrite Cc, Ecp; reflexivity).
+  assert (Ce : cpe (as_arena c) = length (a_entries (as_arena b))) by (unfold cpe; rewrite Cc, Ecp; reflexivity).
+  destruct B as [Bcp Bl Bo Bn Bv Be]. rewrite Cn in Bn. rewrite Cv in Bv. rewrite Ce in Be.
+  constructor; try congruence.
+  assert (Hne : a_gens (as_arena c') <> []).
+  { intros X. rewrite X, Eg, app_length in Bl. cbn in Bl. lia. }
+  assert (Eg' : a_gens (as_arena c') = a_gens (as_arena b) ++ [last (a_gens (as_arena c')) (mkAG None 0 0 0)]).
+  { rewrite (app_removelast_last (mkAG None 0 0 0) Hne) at 1. rewrite Bo, Eg, removelast_app_single. reflexivity. }
+  exists (last (a_gens (as_arena c')) (mkAG None 0 0 0)). split; [exact Eg'|].
+  rewrite <- (checkpoint_of_gens _ _ _ Eg'), Bcp, Cc. exact Ecp.
+Qed.
+
+Lemma Hist_step o c saved :
+  Hist c saved -> SInv c -> gen_op o = false -> Hist (fst (as_step o c)) saved.
+Proof.
+  intros HH HS Hg. destruct (as_step_cow o c HS Hg) as ((_ & B & _) & _ & Htl).
+  destruct saved as [|b rest]; cbn [Hist] in *.
+  - rewrite (B_glen _ _ B). exact HH.
+  - destruct HH as (E & Sb & Hr). split; [|split; assumption]. eapply Ext1_below; eassumption.
+Qed.
+
+Lemma newgen_step c saved :
+  Hist c saved -> SInv c -> tag_ok (as_arena c) = true ->
+  Hist (fst (as_step ONewGen c)) (c :: saved) /\ SInv (fst (as_step ONewGen c)).
+Proof.
+  intros HH HS Htag. pose proof HS as (H & Hh & Hne & Hl). cbn [as_step fst].
+  destruct (new_generation_appends (as_arena c) Hne) as (g & G & Cn & Cv & Ce & Pn & Pe & V).
+  split.
+  - cbn [Hist]. split; [|split; assumption]. constructor; cbn [as_arena as_handles tl]; try assumption; try reflexivity.
+    + exists g. split; [exact G|]. unfold cp_of, lens. congruence.
+    + rewrite V. apply firstn_all.
+  - unfold SInv. cbn [as_arena as_handles cur_handles]. split; [apply new_generation_inv; assumption|].
+    split; [constructor|]. split.
+    + rewrite G. intros X. apply app_eq_nil in X as [_ X]. discriminate.
+    + rewrite G, app_length. cbn. lia.
+Qed.
+
+(** * [normalize] returns to the saved generation *)
+
+Definition le3 (x y : nat * nat * nat) : Prop :=
+  fst (fst x) <= fst (fst y) /\ snd (fst x) <= snd (fst y) /\ snd x <= snd y.
+
+Lemma hist_len c saved : Hist c saved -> length (a_gens (as_arena c)) = S (length saved).
+Proof.
+  revert c. induction saved as [|b rest IH]; intros c H; cbn [Hist] in H; [exact H|].
+  destruct H as ([(g & Eg & _) _ _ _ _] & _ & Hr). rewrite Eg, app_length, (IH b Hr). cbn. lia.
+Qed.
+
+Lemma firstn_eq_le {A} n (l l' : list A) : firstn n l = l' -> length l' = n -> n <= length l.
+Proof. intros E L. rewrite <- E, firstn_length in L. lia. Qed.
+
+Lemma Ext1_lens b c : Ext1 b c -> le3 (lens (as_arena b)) (lens (as_arena c)).
+Proof.
+  intros [_ En Ev Ee _]. unfold le3, lens. cbn [fst snd].
+  split; [|split]; eapply firstn_eq_le; try eassumption; reflexivity.
+Qed.
+
+Lemma hist_cp_bound : forall saved c,
+  Hist c saved -> SInv c ->
+  forall j g', nth_error (a_gens (as_arena c)) j = Some g' -> le3 (cp_of g') (lens (as_arena c)).
+Proof.
+  induction saved as [|b rest IH]; intros c HH HS j g' Hj; cbn [Hist] in HH.
+  - destruct (a_gens (as_arena c)) as [|g0 [|? ?]] eqn:Eg; try discriminate.
+    destruct j as [|j]; [|destruct j; discriminate]. inversion Hj; subst g'.
+    pose proof (checkpoint_of_gens (as_arena c) [] g0 Eg) as C.
+    destruct HS as (H & _). pose proof (AI_len _ H) as (L1 & L2 & L3).
+    unfold cpn, cpv, cpe in *. rewrite C in *. unfold le3, lens. cbn [fst snd] in *. auto.
+  - destruct HH as (E & Sb & Hr). pose proof (Ext1_lens b c E) as (X1 & X2 & X3).
+    destruct E as [(g & Eg & Ecp) _ _ _ _]. rewrite Eg in Hj.
+    destruct (Nat.lt_ge_cases j (length (a_gens (as_arena b)))) as [Hlt|Hge].
+    + rewrite nth_error_app1 in Hj by exact Hlt. destruct (IH b Hr Sb j g' Hj) as (Y1 & Y2 & Y3).
+      unfold le3 in *. lia.
+    + rewrite nth_error_app2 in Hj by exact Hge.
+      destruct (j - length (a_gens (as_arena b))) as [|m]; [|destruct m; discriminate].
+      inversion Hj; subst g'. rewrite Ecp. unfold le3. auto.
+Qed.
+
+Lemma firstn_prefix {A} k n (l l' : list A) : firstn n l = l' -> k <= n -> firstn k l = firstn k l'.
+Proof. intros E Hk. rewrite <- E, firstn_firstn. f_equal. lia. Qed.
+
+Lemma normalize_ext b c rest r :
+  Ext1 b c -> SInv b -> Hist b rest -> length (as_handles c) = length (a_gens (as_arena c)) ->
+  S r <= length (a_gens (as_arena b)) ->
+  fst (as_step (ONormalize r) c) =
+  if Nat.eqb (S r) (length (a_gens (as_arena b))) then b else fst (as_step (ONormalize r) b).
+Proof.
+  intros E Sb Hb Hlc Hr. pose proof Sb as (Hbi & _ & Hbne & Hbl).
+  pose proof E as [(g & Eg & Ecp) En Ev Ee Eh].
+  cbn [as_step fst].
+  assert (Hh : normalize r (as_handles c) = normalize r (as_handles b)).
+  { destruct (as_handles c) as [|h hc] eqn:Ehc; [rewrite Eg, app_length in Hlc; cbn in Hlc; lia|].
+    cbn [tl] in Eh. subst hc. unfold normalize. cbn [length].
+    replace (S (length (as_handles b)) - S r) with (S (length (as_handles b) - S r)) by lia. reflexivity. }
+  destruct (Nat.eqb_spec (S r) (length (a_gens (as_arena b)))) as [Er|Er].
+  - assert (Ea : a_normalize r (as_arena c) = as_arena b).
+    { replace r with (length (a_gens (as_arena b)) - 1) by lia.
+      inversion Ecp. apply (normalize_restores_prefix (as_arena b) (as_arena c) g []); auto. }
+    rewrite Ea, Hh. unfold normalize. rewrite Hbl. replace (length (a_gens (as_arena b)) - S r) with 0 by lia.
+    cbn [skipn]. destruct b; reflexivity.
+  - assert (Hlt : S r < length (a_gens (as_arena b))) by lia.
+    destruct (nth_error (a_gens (as_arena b)) (S r)) as [g'|] eqn:Eg'; [|apply nth_error_None in Eg'; lia].
+    destruct (hist_cp_bound rest b Hb Sb (S r) g' Eg') as (Y1 & Y2 & Y3). unfold cp_of, lens in *. cbn [fst snd] in *.
+    assert (Ea : a_normalize r (as_arena c) = a_normalize r (as_arena b)).
+    { unfold a_normalize. rewrite Eg, nth_error_app1 by exact Hlt. rewrite Eg'.
+      rewrite firstn_app_le by lia.
+      rewrite (firstn_prefix _ _ _ _ Ee Y3), (firstn_prefix _ _ _ _ Ev Y2), (firstn_prefix _ _ _ _ En Y1). reflexivity. }
+    rewrite Ea, Hh. reflexivity.
+Qed.
+
+Lemma normalize_hist : forall saved c r,
+  Hist c saved -> SInv c -> S r < length (a_gens (as_arena c)) ->
+  exists b, nth_error saved (length (a_gens (as_arena c)) - S r - 1) = Some b
+    /\ fst (as_step (ONormalize r) c) = b
+    /\ Hist b (skipn (S (length (a_gens (as_arena c)) - S r - 1)) saved) /\ SInv b.
+Proof.
+  induction saved as [|b rest IH]; intros c r HH HS Hr.
+  - cbn [Hist] in HH. lia.
+  - pose proof (hist_len c (b :: rest) HH) as Lc. cbn [Hist] in HH. destruct HH as (E & Sb & Hb).
+    pose proof (hist_len b rest Hb) as Lb. cbn [length] in Lc.
+    pose proof HS as (_ & _ & _ & Hlc).
+    rewrite (normalize_ext b c rest r E Sb Hb Hlc ltac:(lia)).
+    destruct (Nat.eqb_spec (S r) (length (a_gens (as_arena b)))) as [Er|Er].
+    + exists b. replace (length (a_gens (as_arena c)) - S r - 1) with 0 by lia.
+      cbn [nth_error skipn]. auto.
+    + destruct (IH b r Hb Sb ltac:(lia)) as (b' & Hn & Hs & Hh & Sb').
+      exists b'. replace (length (a_gens (as_arena c)) - S r - 1) with (S (length (a_gens (as_arena b)) - S r - 1)) by lia.
+      cbn [nth_error skipn]. auto.
+Qed.
+
+Lemma normalize_noop c r :
+  length (as_handles c) = length (a_gens (as_arena c)) ->
+  length (a_gens (as_arena c)) <= S r -> fst (as_step (ONormalize r) c) = c.
+Proof.
+  intros Hl Hr. cbn [as_step fst]. unfold a_normalize, normalize.
+  rewrite (proj2 (nth_error_None _ _)) by lia. rewrite firstn_all2 by lia.
+  replace (length (as_handles c) - S r) with 0 by lia. cbn [skipn]. destruct c as [[? ? ? ?] ?]. reflexivity.
+Qed.
+
+(** * Whole histories: no leak and rollback at arena level *)
+
+(** Run a history; at every [new_generation] the generation tag of the root must be the
+    number of the current generation (a run-time check: the invariant that would give it
+    needs that taken nodes are unreachable, which is not proved here). *)
+Fixpoint as_exec (ops : list op) (s : astate) : option astate :=
+  match ops with
+  | [] => Some s
+  | o :: r =>
+      if (match o with ONewGen => tag_ok (as_arena s) | _ => true end)
+      then as_exec r (fst (as_step o s)) else None
+  end.
+
+Lemma as_exec_app a b s :
+  as_exec (a ++ b) s = match as_exec a s with Some s' => as_exec b s' | None => None end.
+Proof.
+  revert s. induction a as [|o a IH]; intros s; cbn [app as_exec]; [reflexivity|].
+  destruct (match o with ONewGen => tag_ok (as_arena s) | _ => true end); [apply IH | reflexivity].
+Qed.
+
+Lemma exec_keeps base saved : forall ops c sv c',
+  Hist base saved ->
+  Hist c (sv ++ base :: saved) -> SInv c ->
+  Forall (keeps (length (a_gens (as_arena base)))) ops ->
+  as_exec ops c = Some c' ->
+  exists sv', Hist c' (sv' ++ base :: saved) /\ SInv c'.
+Proof.
+  intros ops c sv c' Hbase. revert c sv. induction ops as [|o ops IH]; intros c sv HH HS Hk Hex; cbn [as_exec] in Hex.
+  - inversion Hex; subst. eauto.
+  - inversion Hk as [|? ? Ho Hk']; subst.
+    pose proof (hist_len base saved Hbase) as Ln.
+    pose proof (hist_len c _ HH) as Lc. rewrite app_length in Lc. cbn [length] in Lc.
+    destruct o; cbn [keeps] in Ho;
+      try (apply (IH _ sv); [apply Hist_step; [exact HH | exact HS | reflexivity]
+                            | apply (proj1 (proj2 (as_step_cow _ c HS eq_refl))) | exact Hk' | exact Hex]).
+    + (* new generation *)
+      destruct (tag_ok (as_arena c)) eqn:Et; [|discriminate].
+      destruct (newgen_step c _ HH HS Et) as (H1 & S1).
+      apply (IH _ (c :: sv)); assumption.
+    + (* normalize *)
+      pose proof HS as (_ & _ & _ & Hlc).
+      destruct (Nat.le_gt_cases (length (a_gens (as_arena c))) (S r)) as [Hle|Hgt].
+      * rewrite (normalize_noop c r Hlc Hle) in Hex. apply (IH c sv); assumption.
+      * destruct (normalize_hist _ c r HH HS Hgt) as (b & Hn & Hs & Hh & Sb). rewrite Hs in Hex.
+        set (k := length (a_gens (as_arena c)) - S r - 1) in *.
+        assert (Hkk : S k <= length sv) by (unfold k; lia).
+        rewrite skipn_app in Hh. replace (S k - length sv) with 0 in Hh by lia. cbn [skipn] in Hh.
+        apply (IH b (skipn (S k) sv)); assumption.
+    + contradiction.
+Qed.
+
+(** Older generations are never touched: whatever the newer generations do, the vectors of
+    the base state stay a prefix of the current ones. *)
+Lemma hist_prefix base saved : forall sv c,
+  Hist c (sv ++ base :: saved) ->
+  firstn (length (a_nodes (as_arena base))) (a_nodes (as_arena c)) = a_nodes (as_arena base)
+  /\ firstn (length (a_values (as_arena base))) (a_values (as_arena c)) = a_values (as_arena base)
+  /\ firstn (length (a_entries (as_arena base))) (a_entries (as_arena c)) = a_entries (as_arena base)
+  /\ firstn (length (a_gens (as_arena base))) (a_gens (as_arena c)) = a_gens (as_arena base).
+Proof.
+  induction sv as [|b sv IH]; intros c HH; cbn [app Hist] in HH.
+  - destruct HH as ([(g & Eg & _) En Ev Ee _] & _ & _). repeat split; try assumption.
+    rewrite Eg. apply firstn_app_len.
+  - destruct HH as (E & _ & Hb). destruct (IH b Hb) as (P1 & P2 & P3 & P4).
+    pose proof (Ext1_lens b c E) as _. destruct E as [(g & Eg & _) En Ev Ee _].
+    pose proof (firstn_eq_le _ _ _ P1 eq_refl). pose proof (firstn_eq_le _ _ _ P2 eq_refl).
+    pose proof (firstn_eq_le _ _ _ P3 eq_refl). pose proof (firstn_eq_le _ _ _ P4 eq_refl).
+    repeat split.
+    + rewrite (firstn_prefix _ _ _ _ En) by assumption. exact P1.
+    + rewrite (firstn_prefix _ _ _ _ Ev) by assumption. exact P2.
+    + rewrite (firstn_prefix _ _ _ _ Ee) by assumption. exact P3.
+    + rewrite Eg, firstn_app_le by assumption. exact P4.
+Qed.
+
+Theorem arena_no_leak_hist base saved ops c :
+  Hist base saved -> SInv base ->
+  Forall (keeps (length (a_gens (as_arena base)))) ops ->
+  as_exec (ONewGen :: ops) base = Some c ->
+  firstn (length (a_nodes (as_arena base))) (a_nodes (as_arena c)) = a_nodes (as_arena base)
+  /\ firstn (length (a_values (as_arena base))) (a_values (as_arena c)) = a_values (as_arena base)
+  /\ firstn (length (a_entries (as_arena base))) (a_entries (as_arena c)) = a_entries (as_arena base)
+  /\ firstn (length (a_gens (as_arena base))) (a_gens (as_arena c)) = a_gens (as_arena base).
+Proof.
+  intros Hb Sb Hk Hex. cbn [as_exec] in Hex. destruct (tag_ok (as_arena base)) eqn:Et; [|discriminate].
+  destruct (newgen_step base saved Hb Sb Et) as (H1 & S1).
+  destruct (exec_keeps base saved ops _ [] c Hb H1 S1 Hk Hex) as (sv' & H2 & _).
+  eapply hist_prefix. exact H2.
+Qed.
+
+Theorem arena_rollback_hist base saved ops c :
+  Hist base saved -> SInv base ->
+  Forall (keeps (length (a_gens (as_arena base)))) ops ->
+  as_exec (ONewGen :: ops ++ [ONormalize (length (a_gens (as_arena base)) - 1)]) base = Some c ->
+  c = base.
+Proof.
+  intros Hb Sb Hk Hex.
+  change (ONewGen :: ops ++ [ONormalize (length (a_gens (as_arena base)) - 1)])
+    with ((ONewGen :: ops) ++ [ONormalize (length (a_gens (as_arena base)) - 1)]) in Hex.
+  rewrite as_exec_app in Hex.
+  destruct (as_exec (ONewGen :: ops) base) as [c1|] eqn:E1; [|discriminate].
+  cbn [as_exec] in E1. destruct (tag_ok (as_arena base)) eqn:Et; [|discriminate].
+  destruct (newgen_step base saved Hb Sb Et) as (H1 & S1).
+  destruct (exec_keeps base saved ops _ [] c1 Hb H1 S1 Hk E1) as (sv' & H2 & S2).
+  cbn [as_exec] in Hex. inversion Hex as [Hc]. clear Hex.
+  pose proof (hist_len base saved Hb) as Ln.
+  pose proof (hist_len c1 _ H2) as Lc. rewrite app_length in Lc. cbn [length] in Lc.
+  destruct (normalize_hist _ c1 (length (a_gens (as_arena base)) - 1) H2 S2 ltac:(lia)) as (b & Hn & Hs & _).
+  rewrite Hs. replace (length (a_gens (as_arena c1)) - S (length (a_gens (as_arena base)) - 1) - 1) with (length sv') in Hn by lia.
+  rewrite nth_error_app2, Nat.sub_diag in Hn by lia. cbn in Hn. congruence.
+Qed.
+
+(** The initial state satisfies everything. *)
+Lemma SInv_init : SInv as_init.
+Proof.
+  unfold SInv, as_init. cbn [as_arena as_handles cur_handles]. split; [|split; [constructor | split; [discriminate | reflexivity]]].
+  apply AInv_intro; cbn; try lia.
+  - intros i Hi. lia.
+  - intros i _. unfold node_at. cbn. destruct i; apply NodeOK_default.
+  - intros e v _ Hnth. destruct e; discriminate.
+  - unfold cur_root. cbn. discriminate.
+Qed.
+
+Lemma Hist_init : Hist as_init [].
+Proof. reflexivity. Qed.
